@@ -49,13 +49,34 @@ type world struct {
 	times     map[uint64]time.Time // block time per height
 	powers    map[common.Address]int64
 	total     int64
-	stateH    uint64          // pool's state height (for expiry)
-	stateT    time.Time       // pool's state time
-	commited  map[string]bool // semantic keys of committed offences
-	comItems  map[string][]*types.DuplicateVoteEvidence
+	// the validator set entitled to sign each height (it changes when staking transactions were executed)
+	setsChange bool
+	powersAt   map[uint64]map[common.Address]int64
+	totalAt    map[uint64]int64
+	stateH     uint64          // pool's state height (for expiry)
+	stateT     time.Time       // pool's state time
+	commited   map[string]bool // semantic keys of committed offences
+	comItems   map[string][]*types.DuplicateVoteEvidence
 }
 
 func blockKey(id types.BlockID) string { return netsim.ExactKey(id) }
+
+// loadSets reads the validator set of every height up to upTo from the node's store (harness bookkeeping: the sets the
+// chain really had; the pool under test is judged against them).
+func (w *world) loadSets(upTo uint64) {
+	w.powersAt, w.totalAt = map[uint64]map[common.Address]int64{}, map[uint64]int64{}
+	for h := uint64(1); h <= upTo; h++ {
+		vs, err := w.nd.Store.LoadValidators(h)
+		if err != nil || vs == nil {
+			continue
+		}
+		m := map[common.Address]int64{}
+		for _, v := range vs.Validators {
+			m[v.Address] = v.VotingPower
+		}
+		w.powersAt[h], w.totalAt[h] = m, vs.TotalVotingPower()
+	}
+}
 
 // offence identifies WHAT was done, independent of unsigned fields and of signature encoding.
 func offence(e *types.DuplicateVoteEvidence) string {
@@ -99,11 +120,11 @@ func (w *world) valid(e *types.DuplicateVoteEvidence) string {
 	if !ok {
 		return "no-such-height"
 	}
-	p, member := w.powers[a.ValidatorAddress]
+	p, member := w.powersAt[a.Height][a.ValidatorAddress]
 	if !member {
 		return "not-a-validator"
 	}
-	if e.ValidatorPower != p || e.TotalVotingPower != w.total {
+	if e.ValidatorPower != p || e.TotalVotingPower != w.totalAt[a.Height] {
 		return "power-wrong"
 	}
 	if !sigValid(w.s.G.ChainID, a) || !sigValid(w.s.G.ChainID, b) {
@@ -198,7 +219,7 @@ func idOf(tag byte, total uint32) types.BlockID {
 }
 
 var mutations = []string{"none", "none", "none", "B.height", "B.round", "B.type", "B.address", "index-altered", "A.timestamp-after-signing", "same-target", "target-differs-in-total-only",
-	"B-signed-by-other-key", "power+1", "total+1", "time+1ns", "outsider", "future-height", "unordered", "sig-malleated", "sig-v+4", "sig-truncated", "sig-extended"}
+	"B-signed-by-other-key", "power+1", "total+1", "powers-of-next-height", "powers-of-next-height", "time+1ns", "outsider", "future-height", "unordered", "sig-malleated", "sig-v+4", "sig-truncated", "sig-extended"}
 
 // genEvidence draws a genuine equivocation and applies one mutation. Returns the evidence, the mutation and a text.
 func (w *world) genEvidence(t *rapid.T) (*types.DuplicateVoteEvidence, string, string) {
@@ -290,9 +311,17 @@ func (w *world) genEvidence(t *rapid.T) (*types.DuplicateVoteEvidence, string, s
 	if mut == "unordered" {
 		A, B = B, A
 	}
-	p := w.powers[w.s.Addr(v)]
-	e := &types.DuplicateVoteEvidence{VoteA: A, VoteB: B, TotalVotingPower: w.total, ValidatorPower: p, Timestamp: w.times[h]}
+	p := w.powersAt[h][w.s.Addr(v)]
+	e := &types.DuplicateVoteEvidence{VoteA: A, VoteB: B, TotalVotingPower: w.totalAt[h], ValidatorPower: p, Timestamp: w.times[h]}
 	switch mut {
+	case "powers-of-next-height":
+		// the validator's power and the total as they are one height LATER (only a mutation if the set changed there)
+		np, ok := w.powersAt[h+1][w.s.Addr(v)]
+		if !ok || (np == p && w.totalAt[h+1] == w.totalAt[h]) {
+			mut = "none"
+		} else {
+			e.ValidatorPower, e.TotalVotingPower = np, w.totalAt[h+1]
+		}
 	case "power+1":
 		e.ValidatorPower++
 	case "total+1":
@@ -326,13 +355,34 @@ func buildWorld(t *rapid.T) *world {
 		t.Fatalf("harness: %v", err)
 	}
 	H := uint64(rapid.IntRange(2, 5).Draw(t, "H"))
+	// in half of the chains the validator set changes on the way (real staking transactions in drawn blocks)
+	var st *netsim.Staker
+	if rapid.Bool().Draw(t, "validator-changes") {
+		if st, err = netsim.NewStaker(s); err != nil {
+			s.Close()
+			t.Fatalf("harness: %v", err)
+		}
+	}
 	s.Start()
-	var ok bool
-	var why string
-	ev.Guard(t, nil, func() { ok, _, why = s.SyncRun(s.Correct, H+1, 2000) })
-	if !ok {
-		s.Close()
-		t.Fatalf("harness: chain: %s", why)
+	for target := uint64(2); target <= H+1; target++ {
+		if st != nil && rapid.IntRange(0, 2).Draw(t, "stake") > 0 {
+			d, v := rapid.IntRange(0, 1).Draw(t, "delegator"), rapid.IntRange(0, n-1).Draw(t, "to")
+			units := int64(rapid.IntRange(1, 25).Draw(t, "units"))
+			if st.Staked[d][v] && rapid.Bool().Draw(t, "undelegate") {
+				units = 0
+			}
+			if err := st.Send(d, v, units); err != nil {
+				s.Close()
+				t.Fatalf("harness: %v", err)
+			}
+		}
+		var ok bool
+		var why string
+		ev.Guard(t, nil, func() { ok, _, why = s.SyncRun(s.Correct, target, 2000) })
+		if !ok {
+			s.Close()
+			t.Fatalf("harness: chain: %s", why)
+		}
 	}
 	nd := s.Nodes[0]
 	w := &world{maxAgeDur: maxAgeDur, s: s, nd: nd, H: H, times: map[uint64]time.Time{}, powers: map[common.Address]int64{}, commited: map[string]bool{}, comItems: map[string][]*types.DuplicateVoteEvidence{}}
@@ -344,8 +394,18 @@ func buildWorld(t *rapid.T) *world {
 		w.powers[v.Address] = v.VotingPower
 	}
 	w.total = vs.TotalVotingPower()
-	st := nd.CS.VerifState()
-	w.stateH, w.stateT = st.LastBlockHeight, st.LastBlockTime
+	w.loadSets(H + 1)
+	for h := uint64(1); h <= H; h++ {
+		if a, b := w.powersAt[h], w.powersAt[h+1]; a != nil && b != nil {
+			for addr, p := range a {
+				if b[addr] != p {
+					w.setsChange = true
+				}
+			}
+		}
+	}
+	cst := nd.CS.VerifState()
+	w.stateH, w.stateT = cst.LastBlockHeight, cst.LastBlockTime
 	return w
 }
 
@@ -359,6 +419,9 @@ func TestEvidencePool(t *testing.T) {
 		text := func() string { return strings.Join(log, ";") }
 		log = append(log, fmt.Sprintf("chain n=%d H=%d maxAge=%d blocks and %v", len(w.s.Keys), w.H, maxAgeBlocks, w.maxAgeDur))
 		ev.Class("max-age-duration:" + w.maxAgeDur.String())
+		if w.setsChange {
+			ev.Class("validator-set-changes-within-the-chain")
+		}
 		steps := rapid.IntRange(3, 14).Draw(t, "steps")
 		nontrivial := false
 		var history []*types.DuplicateVoteEvidence
@@ -626,6 +689,7 @@ func TestKnown(t *testing.T) {
 		w.powers[v.Address] = v.VotingPower
 	}
 	w.total = nd.CS.Validators.TotalVotingPower()
+	w.loadSets(4)
 	mk := func(val int, round uint32) *types.DuplicateVoteEvidence {
 		addr := s.Addr(val)
 		va := &types.Vote{ValidatorAddress: addr, ValidatorIndex: uint32(val), Height: 2, Round: round, Timestamp: w.times[2].Add(time.Second), Type: kproto.PrevoteType, BlockID: idOf(1, 1)}
